@@ -3,10 +3,11 @@
    ops (space separated tokens):
      R <hex>            ReadRecord
      G <idx>            GetField
+     T <idx>            TypeOf
      S <idx> <hex>      SetField
      L <idx> <hex>      GetlineField
      K <hex>            GetlineVar
-     M <idx> <kind>     ModField, kind in suba gsuba app incr add2
+     M <idx> <kind>     ModField, kind in suba gsuba app id idsv incr add2
      N                  GetNF
      W <bits> <hex>     SetNF (value: number bits, CONVFMT string)
      D <d>              ModNF (NF += d)
@@ -65,6 +66,9 @@ let out_str = function
   | OVal b -> "v=" ^ abbr b
   | ONF v -> "n=" ^ value_str v
   | OAll (v, fl) -> "a=" ^ value_str v ^ "/" ^ fields_str fl
+  | OTyp None -> "t=-"
+  | OTyp (Some true) -> "t=S"
+  | OTyp (Some false) -> "t=N"
 
 let idx_of s =
   let rest = String.sub s 1 (String.length s - 1) in
@@ -109,6 +113,7 @@ let modfun = function
   | "suba" -> (fun l -> Ok (sub_first l))
   | "gsuba" -> (fun l -> Ok (gsub_all l))
   | "app" -> (fun l -> Ok (Some (l @ [z_of_int 120])))
+  | "id" | "idsv" -> (fun l -> Ok (Some l))
   | "incr" -> add_int 1
   | "add2" -> add_int 2
   | k -> failwith ("bad modfield kind " ^ k)
@@ -125,6 +130,7 @@ let rec parse_ops = function
   | [] -> []
   | "R" :: t :: r -> ReadRecord (bytes_of_hex t) :: parse_ops r
   | "G" :: i :: r -> GetField (idx_of i) :: parse_ops r
+  | "T" :: i :: r -> TypeOf (idx_of i) :: parse_ops r
   | "S" :: i :: t :: r -> SetField (idx_of i, bytes_of_hex t) :: parse_ops r
   | "L" :: i :: t :: r -> GetlineField (idx_of i, bytes_of_hex t) :: parse_ops r
   | "K" :: t :: r -> GetlineVar (bytes_of_hex t) :: parse_ops r
